@@ -99,9 +99,18 @@ func start() error {
 	return nil
 }
 
+// AskRaw is Ask with the first operand given as text (op "parse").
+func AskRaw(op string, text string) (Answer, error) {
+	return ask(request{Op: op, P: 9, Emax: 99, Emin: -99, R: "half_even", X: text, Y: "0"})
+}
+
 // Ask evaluates one operation in Python. An error means the infrastructure failed (no
 // python3, broken pipe, exception inside the server): callers must not treat it as a verdict.
 func Ask(op string, ctx core.Ctx, x, y core.Dec, q int32) (Answer, error) {
+	return ask(request{Op: op, P: ctx.P, Emax: ctx.Emax, Emin: ctx.Emin, R: ctx.Rounding, X: Spell(x), Y: Spell(y), Q: q})
+}
+
+func ask(rq request) (Answer, error) {
 	mu.Lock()
 	defer mu.Unlock()
 	var a Answer
@@ -115,7 +124,7 @@ func Ask(op string, ctx core.Ctx, x, y core.Dec, q int32) (Answer, error) {
 			return a, failed
 		}
 	}
-	b, _ := json.Marshal(request{Op: op, P: ctx.P, Emax: ctx.Emax, Emin: ctx.Emin, R: ctx.Rounding, X: Spell(x), Y: Spell(y), Q: q})
+	b, _ := json.Marshal(rq)
 	in.Write(b)
 	in.WriteByte('\n')
 	if err := in.Flush(); err != nil {
